@@ -45,7 +45,7 @@ theorem levelCi_is_source (r : Seg) (lo hi : Rat) (hlo : r.ciLo = some lo) (hhi 
 theorem levelSem_is_source (r : Seg) (s : Rat) (hs : r.sem = some s) :
     levelSem r = some (src_level_sem r.log2 s SEM_ZSCORE) := by
   unfold levelSem src_level_sem
-  simp only [hs, Option.getD_some]
+  simp only [hs]
   all_goals first
     | rfl
     | (refine congrArg some ?_
